@@ -24,7 +24,7 @@ NSHARDS_DEFAULT = 16
 OUT_DIR = os.environ.get('VERIF_OUT_DIR') or os.path.join(common.VERIF_DIR, 'out', 'violations')
 EVIDENCE_DIR = os.environ.get('VERIF_EVIDENCE_DIR') or os.path.join(common.VERIF_DIR, 'evidence')
 CORPUS_DIR = os.path.join(common.VERIF_DIR, 'corpus')
-KNOWN_FILE = os.path.join(common.VERIF_DIR, 'known_findings.json')
+KNOWN_FILE = os.environ.get('VERIF_KNOWN_FILE') or os.path.join(common.VERIF_DIR, 'known_findings.json')
 
 
 def load_prop(prop_id):
